@@ -4,4 +4,5 @@ CONSTANTS
   Reasons <- NoVals
   MaxReq = 1000
   Timeouts = TRUE
+  Strict = TRUE
 POSTCONDITION Report
